@@ -844,8 +844,8 @@ def _compile_module_file(template, text, filename, outputpath, module_writer):
         # avoiding synchronization issues.
         dest, name = tempfile.mkstemp(dir=os.path.dirname(outputpath))
 
-        os.write(dest, source)
-        os.close(dest)
+        with os.fdopen(dest, "wb") as fp:
+            fp.write(source)
         shutil.move(name, outputpath)
 
 
